@@ -19,8 +19,8 @@ RULE = ("S->C: for every generated integer / bits / VarUInteger type (all widths
         "ValueFlow v1/v2) judges, for each real block of the repository (six), its BlockInfo and ValueFlow, every entry of its "
         "InMsgDescr and OutMsgDescr (leaf = extra value, found by the driver's own dictionary walk, which must list the same keys "
         "as the library) and every account record reachable in the old and new shard state of its Merkle update (records whose "
-        "sub-cells are pruned away are only required not to be mis-read). Quick takes at most 48 entries of each dictionary (spread over its keys) and skips "
-        "records that unfold beyond 400 cells (thorough: all entries, 1000 cells). Non-trivial = "
+        "sub-cells are pruned away are only required not to be mis-read). Quick takes at most 24 entries of each dictionary (spread over its keys) and skips "
+        "records that unfold beyond 300 cells (thorough: all entries, 800 cells). Non-trivial = "
         "anything but the all-zero value; distinct = distinct (type, cell).")
 
 
@@ -59,19 +59,28 @@ def run(ck):
     def val(tp):
         return ck.validate_events("Tlb_Trace", "trace/Tlb_Trace.cfg", tp, timeout=3000, name="trace_" + os.path.basename(tp)[6:8], heap_gb=3,
                                   extra_files={"schema.json": schema})
-    kinds, distinct = {}, set()
+    kinds, distinct, cand = {}, set(), {}
     judged = {"enc": 0, "dec": 0, "enc+dec": 0, "none": 0}
     ctors = {}
     real = {}          # type -> {records, by Enc, by Dec, with a non-empty dictionary judged by Dec, not decidable (pruned), too big}
     def rec(t):
         return real.setdefault(t, {"records": 0, "judged_by_Enc": 0, "judged_by_Dec": 0, "judged_by_Dec_only": 0, "pruned_not_comparable": 0, "too_big_skipped": 0})
-    for tp, (res, rejected) in zip(traces, vlib.parallel(val, traces, n=8)):
+    for tp, (res, rejected) in zip(traces, vlib.parallel(val, traces, n=8 if ck.thorough else 16)):
         notes = cellcommon.notes_by_line(res)
         by = {t[1]: t[2] for t in res.tuples("JD")}
         for b in by.values():
             judged[b] = judged.get(b, 0) + 1
         for ln, l in enumerate(open(tp), 1):
             e = json.loads(l)
+            kinds[e.get("k")] = kinds.get(e.get("k"), 0) + 1
+            if e.get("k") in ("ENC", "DECSRC", "REENC") and e.get("tree"):
+                distinct.add((e["type"], e["tree"][:200], len(e["tree"])))
+            if e.get("k") == "DECSRC" and e.get("dec") == "ok":
+                # candidates for the canaries below
+                if "dtx" not in cand and e["type"] == "Transaction" and not e["unique"] and e["v"][9][1] and len(l) < 60000:
+                    cand["dtx"] = e
+                if "binfo" not in cand and e["type"] == "BlockInfo":
+                    cand["binfo"] = e
             if e.get("k") == "TooBig":
                 rec(e["type"])["too_big_skipped"] += 1
             if e.get("k") != "DECSRC":
@@ -105,11 +114,6 @@ def run(ck):
             else:
                 ck.report("C04:%s:%s:%s" % (e.get("k"), e.get("type"), note), "%s event for %s rejected (%s) %s" % (e.get("k"), e.get("type"), note, e.get("where", "")),
                           {"kind": "trace", "event": cellcommon.slim(e, 6000), "note": note})
-        for l in open(tp):
-            e = json.loads(l)
-            kinds[e.get("k")] = kinds.get(e.get("k"), 0) + 1
-            if e.get("k") in ("ENC", "DECSRC", "REENC") and e.get("tree"):
-                distinct.add((e["type"], e["tree"][:200], len(e["tree"])))
     _t(ck, "traces judged")
     ck.extra["events_by_kind"] = kinds
     ck.extra["bits_judged_by"] = judged
@@ -131,10 +135,7 @@ def run(ck):
     c3 = copy.deepcopy(dec); c3["dec"] = "panic: boom"
     # the decoder's opinion alone. A transaction with out-messages (no unique encoding: only Dec judges its bits): one bit of
     # the out-message dictionary changed / the recorded value text changed. A BlockInfo: one flag bit of the structured source changed.
-    allev = [e for t in traces for e in vlib.read_ndjson(t)]
-    dtx = next((e for e in allev if e.get("k") == "DECSRC" and e["type"] == "Transaction" and not e["unique"] and e["dec"] == "ok"
-                and e["v"][9][1] and len(json.dumps(e)) < 60000), None)
-    binfo = next((e for e in allev if e.get("k") == "DECSRC" and e["type"] == "BlockInfo" and e["dec"] == "ok"), None)
+    dtx, binfo = cand.get("dtx"), cand.get("binfo")
     if dtx is None or binfo is None:
         raise Infra("no transaction with out-messages / no BlockInfo record among the recorded events")
     c4 = copy.deepcopy(dtx)
